@@ -42,7 +42,9 @@ func runLife(e *Env) {
 	faultsOn := !e.NoFaults
 
 	numConns := 1 + tp.Next(4)
-	timeout := []time.Duration{300 * time.Millisecond, 100 * time.Millisecond}[tp.Next(2)]
+	// the long one outlives the driver's one-second event debounce: a request can still be
+	// outstanding when a status event for its host is acted upon
+	timeout := []time.Duration{300 * time.Millisecond, 100 * time.Millisecond, 2500 * time.Millisecond}[tp.Next(3)]
 	nTasks := 1 + tp.Next(4)
 	nOps := 2 + tp.Next(5)
 	closers := 1 + tp.Next(2)
@@ -257,11 +259,27 @@ func runLife(e *Env) {
 			acts = append(acts, kernel.Action{Key: "event", Rank: 6, Weight: 3, Do: func() {
 				k.Fault("event.push")
 				h := cl.Hosts[tp.Next(len(cl.Hosts))]
+				if held := cl.Held(); len(held) > 0 && tp.Chance(1, 2) {
+					// about a node that owes an answer
+					if bh := cl.HostByAddr(held[tp.Next(len(held))].SC.C.Host); bh != nil {
+						h = bh
+					}
+				}
 				typ, ch := "TOPOLOGY_CHANGE", "NEW_NODE"
 				if tp.Chance(1, 2) {
 					typ, ch = "STATUS_CHANGE", []string{"UP", "DOWN"}[tp.Next(2)]
 				}
 				cl.PushEvent(&cqlspec.Response{EventType: typ, EventChange: ch, EventIP: net.ParseIP(h.Addr).To4(), EventPort: 9042})
+				if tp.Chance(1, 2) {
+					// ... and the driver's event debounce interval passes with whatever is
+					// outstanding still outstanding
+					k.Fault("event.push-then-debounce")
+					for end := time.Now().Add(1100 * time.Millisecond); time.Now().Before(end); {
+						k.AdvanceTime(time.Until(end))
+						k.Quiesce()
+						cl.Process()
+					}
+				}
 			}})
 			return acts
 		})
@@ -394,9 +412,18 @@ func lifeInvariants(k *kernel.Kernel, cl *node.Cluster, sess *gocql.Session, num
 			open[c.Host]++
 		}
 	}
+	// a pool that is being closed has given up its connections but not closed them yet
+	// (the closer is held between the two, or inside the first Conn.Close): they are open
+	// next to those of its successor
+	closing := 0
+	for _, key := range k.ParkedKeys() {
+		if strings.HasPrefix(key, "pool.close") || strings.HasPrefix(key, "close.") {
+			closing++
+		}
+	}
 	for host, n := range open {
-		if n > numConns+2 {
-			k.Violate("C17", "C17/too-many-open-connections", "%d connections are open to %s, NumConns is %d (+1 for the control connection, +1 being replaced)", n, host, numConns)
+		if n > numConns+2+closing*numConns {
+			k.Violate("C17", "C17/too-many-open-connections", "%d connections are open to %s, NumConns is %d (+1 for the control connection, +1 being replaced, %d pool(s) in the middle of closing)", n, host, numConns, closing)
 			return
 		}
 	}
